@@ -3,7 +3,7 @@ from vt import g3, runner
 
 META = {
     "category": "other",
-    "text": 'Both ordering clauses are postconditions of the real util._constrain_ages proved for all inputs (G1, fp64); G3 proves that get_modified_ts assigns exactly that result to nodes.time, resets mutation times/parents and runs sort -> build_index -> compute_mutation_parents -> compute_mutation_times -> tree_sequence(), and that constrain_ages hands the kernel the sample-flag mask. Mutation-time bounds and validity then follow from the assumed tskit contracts -- except on branches one ulp long, where tskit's midpoint rounds onto the parent's time (a known, recorded finding that keeps this check below proof level). A bounded end-to-end run over methods/options/time scales is a cross-check, not part of the proof.',
+    "text": 'Both ordering clauses are postconditions of the real util._constrain_ages proved for all inputs (G1, fp64); G3 proves that get_modified_ts assigns exactly that result to nodes.time, resets mutation times/parents and runs sort -> build_index -> compute_mutation_parents -> compute_mutation_times -> tree_sequence(), and that constrain_ages hands the kernel the sample-flag mask. Mutation-time bounds and validity then follow from the assumed tskit contracts -- except on branches one ulp long, where the midpoint computed by tskit rounds onto the time of the parent (a known, recorded finding that keeps this check below proof level). A bounded end-to-end run over methods/options/time scales is a cross-check, not part of the proof.',
     "design_ref": "DESIGN.md section 4, C01",
     "level_note": 'Trusted: AST->SMT encoding, numpy primitive contracts, z3/cvc5, A-TS-API/A-TS-ORDER: documented behaviour of tskit tables (sort, build_index, compute_mutation_parents/times, tree_sequence validation, edge ordering). Assumed: A-LS-FINITE (least-squares sweeps do not overflow), A-FP-MONO (binary64 instance of one monotonicity lemma), posterior means are finite (bounded only).',
     "technique": 'contract-based deductive verification: VC generation over the real Python AST + SMT (z3/cvc5)',
